@@ -45,8 +45,10 @@ static item *entry(void const *p)
 
 static int cmp(void const *lhs, void const *rhs)
 {
+    /* the documented contract is <0 / ==0 / >0, not -1 / 0 / +1: the magnitude varies with the keys (seeded change C01-18) */
     long a = entry(lhs)->key, b = entry(rhs)->key;
-    return (a > b) - (a < b);
+    int const mag = 1 + (int)(((unsigned long)a * 7u + (unsigned long)b * 13u) % 1000u);
+    return a > b ? mag : a < b ? -mag : 0;
 }
 
 static item *get(int id)
